@@ -13,6 +13,7 @@ import (
 	"encoding/json"
 	"fmt"
 	"math"
+	"math/big"
 	"math/rand"
 	"regexp"
 	"strings"
@@ -57,18 +58,20 @@ type Hooks struct {
 }
 
 type mon struct {
-	rec     *fw.Recorder
-	r       *rand.Rand
-	w       *world.BridgeWorld
-	c       *chain.Chain
-	p       params
-	evNonce map[string]uint64
-	jobs    []string
-	stopped bool
-	relayTx map[uint64]*world.RemoteTx
-	lastOps []string
-	hooks   Hooks
-	blockNo int
+	rec       *fw.Recorder
+	r         *rand.Rand
+	w         *world.BridgeWorld
+	c         *chain.Chain
+	p         params
+	evNonce   map[string]uint64
+	jobs      []string
+	stopped   bool
+	relayTx   map[uint64]*world.RemoteTx
+	lastOps   []string
+	hooks     Hooks
+	blockNo   int
+	extra     []string // chains onboarded by governance during the history (validators register late)
+	onboardAt int
 }
 
 var paloFrame = regexp.MustCompile(`github\.com/palomachain/paloma/v2/([^\s(]+(?:\(\*\w+\)\.\w+)?)`)
@@ -165,12 +168,16 @@ func Drive(c fw.Case, p Params, rec *fw.Recorder, hooks Hooks) {
 	if snap, err := m.c.App.ValsetKeeper.GetCurrentSnapshot(m.c.Ctx()); err == nil && snap != nil {
 		_ = m.c.App.EvmKeeper.PublishSnapshotToAllChains(m.c.Ctx(), snap, true)
 	}
+	m.onboardAt = 60 + r.Intn(180)
 	rec.Sample(map[string]any{"params": p})
 	if hooks.AfterBringUp != nil {
 		hooks.AfterBringUp(w)
 	}
 	for b := 0; b < p.Blocks && !m.stopped; b++ {
 		m.blockNo = b
+		if b == m.onboardAt {
+			m.onboardChains()
+		}
 		if b%300 == 5 {
 			w.KeepAlive()
 			m.block(true)
@@ -444,6 +451,10 @@ func (m *mon) pigeonMsg(v *chain.Account, kind string) (sdk.Msg, string) {
 			}
 		}
 	case "jobs", "misc":
+		if len(m.extra) > 0 && r.Intn(12) == 0 {
+			// the pigeon gets configured for the newly onboarded chains
+			return world.MsgRegister(v, append(append([]string{}, w.Chains...), m.extra...)), "register-onboarded-chains"
+		}
 		switch r.Intn(3) {
 		case 0:
 			vers := []string{"v2.4.0", "v9.9.9", "v0.0.1", "", "garbage", "v2.4.0-rc1+build"}
@@ -612,6 +623,24 @@ func (m *mon) gov() {
 		_, _ = c.Direct(msg, c.Height, c.Time)
 	}
 	m.rec.Count("gov_actions", 1)
+}
+
+// onboardChains: governance adds two further EVM chains at once and they become active (compass
+// deployed); validators register accounts for them only later, one by one - until then they miss
+// two active chains (what paloma's end-blocker checks at heights = 0 mod 303).
+func (m *mon) onboardChains() {
+	c := m.c
+	for i, ref := range []string{"arb-main", "base-main"} {
+		if err := c.App.EvmKeeper.AddSupportForNewChain(c.Ctx(), ref, uint64(42161+i), 100, "0x"+strings.Repeat("cd", 32), big.NewInt(0)); err != nil {
+			continue
+		}
+		if err := world.ActivateChain(c, ref, fmt.Sprintf("0x%040x", 0xC0DE100+i), []byte("compass-"+ref+"-1")); err != nil {
+			continue
+		}
+		m.extra = append(m.extra, ref)
+		m.note("gov onboard-chain " + ref)
+		m.rec.Count("chains_onboarded", 1)
+	}
 }
 
 // probe: every Paloma module's BeginBlock and EndBlock on throw-away forks at rare heights.
